@@ -17,7 +17,9 @@ const I: u32 = (1 << 11) | M; // INTERMEDIATE_PREPARATIONS
 /// pseudo bits: the construct is only invalid in some contexts
 const NEEDS_NO_EARLIER_STEP: u32 = 1 << 30;
 const NEEDS_AT_MOST_ONE_EARLIER_STEP: u32 = 1 << 29;
-const PSEUDO: u32 = NEEDS_NO_EARLIER_STEP | NEEDS_AT_MOST_ONE_EARLIER_STEP;
+/// the construct is only invalid while the intermediate-preparations extension is off
+const WITHOUT_INTERMEDIATE: u32 = 1 << 28;
+const PSEUDO: u32 = NEEDS_NO_EARLIER_STEP | NEEDS_AT_MOST_ONE_EARLIER_STEP | WITHOUT_INTERMEDIATE;
 
 /// (name, source of the invalid construct, extension bits the check needs)
 const INLINE: &[(&str, &str, u32)] = &[
@@ -58,6 +60,10 @@ const INLINE: &[(&str, &str, u32)] = &[
     ("relative intermediate reference 0", "@&(~0)zz{}", I),
     ("section reference 0", "@&(=0)zz{}", I),
     ("intermediate reference out of range", "@&(9)zz{}", I),
+    ("intermediate reference number beyond 32767", "@&(40000)zz{}", I),
+    ("relative intermediate reference number beyond 32767", "@&(~65535)zz{}", I),
+    ("section reference number beyond 32767", "@&(=32768)zz{}", I),
+    ("reference to an undefined name that begins with a parenthesised number, intermediate preparations off", "@&(1)zz{}", M | WITHOUT_INTERMEDIATE),
     ("relative intermediate reference out of range", "@&(~9)zz{}", I),
     ("section reference out of range", "@&(=9)zz{}", I),
     ("relative section reference out of range", "@&(=~9)zz{}", I),
@@ -156,6 +162,19 @@ fn check_planted(name: &str, src: &str, range: &std::ops::Range<usize>, parser: 
     None
 }
 
+fn ext_sets_of(entry_bits: u32) -> Vec<Extensions> {
+    let bits = entry_bits & !PSEUDO;
+    if entry_bits & WITHOUT_INTERMEDIATE != 0 {
+        let inter_only = Extensions::INTERMEDIATE_PREPARATIONS.bits() & !Extensions::COMPONENT_MODIFIERS.bits();
+        let mut v = vec![Extensions::from_bits(bits).expect("bits")];
+        if let Some(x) = Extensions::from_bits(Extensions::all().bits() & !inter_only) {
+            v.push(x);
+        }
+        return v;
+    }
+    ext_sets(bits)
+}
+
 fn ext_sets(bits: u32) -> Vec<Extensions> {
     let mut v = vec![Extensions::all()];
     let minimal = Extensions::from_bits(bits).expect("bits");
@@ -211,7 +230,7 @@ pub fn run(tier: Tier) {
     let slots = Arc::new(slots);
     let dev = tier.pick(1, 2);
     let total = INLINE.len() as u64 * slots.len() as u64;
-    let parsers: Arc<Vec<Vec<CooklangParser>>> = Arc::new(INLINE.iter().map(|e| ext_sets(e.2 & !PSEUDO).into_iter().map(|x| CooklangParser::new(x, Converter::bundled())).collect()).collect());
+    let parsers: Arc<Vec<Vec<CooklangParser>>> = Arc::new(INLINE.iter().map(|e| ext_sets_of(e.2).into_iter().map(|x| CooklangParser::new(x, Converter::bundled())).collect()).collect());
     let (sl, cx) = (slots.clone(), ctxs.clone());
     let ns = slots.len() as u64;
     sweep(&format!("C07 planted constructs: {} constructs x {} slots x spellings with <= {dev} deviations x enabling extension sets", INLINE.len(), slots.len()), total, move |i| json!({"kind": "planted-model", "construct": INLINE[(i / ns) as usize].0, "slot": format!("{:?}", sl[(i % ns) as usize])}), |idx, local| {
